@@ -199,7 +199,20 @@ pub fn line_variant(base: &[bool], lay: &[ModuleKind], w: usize, h: usize, colum
             3 => false,                             // all light
             4 => base[at((k + 1) % n)],             // shifted by one module
             5 => k % 2 == 0,                        // alternating, starting dark
-            _ => k % 2 == 1,                        // alternating, starting light
+            6 => k % 2 == 1,                        // alternating, starting light
+            // a copy of a neighbouring line (one or two lines before / after)
+            v => {
+                let lines = if column { w } else { h };
+                let d: isize = [-2, -1, 1, 2][(v - 7) % 4];
+                let j = index as isize + d;
+                if j < 0 || j >= lines as isize {
+                    base[i]
+                } else if column {
+                    base[k * w + j as usize]
+                } else {
+                    base[j as usize * w + k]
+                }
+            }
         };
     }
     bits
@@ -211,7 +224,7 @@ fn check_line_deviation(c: &LineDeviation) -> Verdict {
     let base = place::render(sym, &cw);
     let lay = place::layout(sym);
     let mut rejected = 0;
-    for variant in 0..7 {
+    for variant in 0..11 {
         let bits = line_variant(&base, &lay, sym.cols, sym.rows, c.column, c.index, variant);
         let case = BitmapCase { width: sym.cols, bits, stratum: "line-deviation" };
         match check_converse(&case) {
@@ -224,7 +237,7 @@ fn check_line_deviation(c: &LineDeviation) -> Verdict {
             other => return other,
         }
     }
-    Verdict::Pass(Pass::new("line-deviation", rejected > 0).count("line_deviations", 7).count("line_deviations_rejected", rejected))
+    Verdict::Pass(Pass::new("line-deviation", rejected > 0).count("line_deviations", 11).count("line_deviations_rejected", rejected))
 }
 
 /// all pairs of non-data modules of one interior row or column of a valid rendering flipped together
@@ -385,7 +398,7 @@ fn g_converse() -> BoxedStrategy<BitmapCase> {
             BitmapCase { width: sym.cols, bits, stratum: "multi-deviation" }
         }),
         // valid rendering with one or two whole lines rewritten (plus possibly a module flip)
-        3 => (any::<u16>(), any::<u64>(), vec((any::<bool>(), any::<u16>(), 0usize..7), 1..=2), any::<u16>(), any::<bool>()).prop_map(|(s, seed, lines, p, flip)| {
+        3 => (any::<u16>(), any::<u64>(), vec((any::<bool>(), any::<u16>(), 0usize..11), 1..=2), any::<u16>(), any::<bool>()).prop_map(|(s, seed, lines, p, flip)| {
             let sym = &SYMBOLS[pick(s, 48)];
             let cw = expand(seed, sym.total());
             let mut bits = place::render(sym, &cw);
@@ -480,6 +493,25 @@ fn run(ctx: &Arc<Ctx>) {
                 let bits: Vec<bool> = (0..w * h).map(|i| base[((i / w) % sym.rows) * sym.cols + (i % w) % sym.cols]).collect();
                 shapes.push(BitmapCase { width: w, bits, stratum: "shape-collision" });
             }
+        }
+    }
+    // a valid symbol inside a frame of light (or dark) modules, one or two modules wide: a scan that
+    // includes the quiet zone has dimensions no symbol has
+    for sym in SYMBOLS.iter() {
+        let base = place::render(sym, &vec![0xa7; sym.total()]);
+        for (f, dark) in [(1usize, false), (2, false), (1, true)] {
+            let (w, h) = (sym.cols + 2 * f, sym.rows + 2 * f);
+            let bits: Vec<bool> = (0..w * h)
+                .map(|i| {
+                    let (r, c) = (i / w, i % w);
+                    if r < f || c < f || r >= h - f || c >= w - f {
+                        dark
+                    } else {
+                        base[(r - f) * sym.cols + (c - f)]
+                    }
+                })
+                .collect();
+            shapes.push(BitmapCase { width: w, bits, stratum: "framed-symbol" });
         }
     }
     ctx.run_enumerated("shape-edges", "bitmap", shapes, Some("widths 0..=150 x lengths {0, 1, w-1, w, w+1, 2w, 8w, 10w, 10w+1, 12w, 144w}: error classification"), check_converse);
